@@ -14,7 +14,10 @@ use std::fmt::Debug;
 use std::path::Path;
 use std::sync::atomic::{AtomicU32, AtomicU64, Ordering};
 use std::sync::Arc;
+#[cfg(not(kani))]
 use tokio::io::{AsyncReadExt, BufReader};
+#[cfg(kani)]
+use iggy::verif_model::fs::io_model::{AsyncReadExt, BufReader};
 use tracing::{debug, error, info};
 
 pub const BUF_READER_CAPACITY_BYTES: usize = 512 * 1000;
